@@ -45,6 +45,7 @@ fn main() {
                 "C06" => run_sched(&args[3]),
                 "C11" => run_cfg(&args[3]),
                 "C20" => run_c20(&args[3]),
+                "C18" => run_c18(&args[3]),
                 _ => run_hx(&args[2], &args[3]),
             }
         }
@@ -391,6 +392,64 @@ fn run_fault(tier: &str) -> i32 {
         o.histories, o.points, o.runs, o.op_failed, o.swallowed, o.not_reached, o.capped, o.wall_s
     );
     exit
+}
+
+/// C18 = history exploration (exact marks) + the marks under a concurrent flush (never below an acknowledged write).
+fn run_c18(tier: &str) -> i32 {
+    let (max_wall, _) = registry::caps(tier);
+    let sched_budget = if tier == "quick" { 8.0 } else { 120.0 };
+    std::env::set_var("VERIF_MAX_WALL_S", format!("{}", (max_wall - sched_budget).max(10.0)));
+    let rc = run_hx("C18", tier);
+    std::env::remove_var("VERIF_MAX_WALL_S");
+    if rc == 2 {
+        return 2;
+    }
+    let o = sched::run_scenarios(tier, threads(), sched_budget, sched::scenarios_c18(), "C18");
+    let mut exit2 = false;
+    for m in o.machinery.iter().take(5) {
+        eprintln!("MACHINERY: {m}");
+        exit2 = true;
+    }
+    let mut items = vec![];
+    let mut seen = std::collections::BTreeSet::new();
+    let mut found = o.found.clone();
+    found.sort_by_key(|f| (f.sig.clone(), f.schedule.len()));
+    for f in &found {
+        // the C06 oracles also run in this scenario; only the marks belong to C18
+        if f.sig != "highest-seqno-below-acknowledged-write" || !seen.insert(f.sig.clone()) {
+            continue;
+        }
+        let r1: Vec<String> = sched::replay(f).into_iter().map(|x| x.0).collect();
+        let r2: Vec<String> = sched::replay(f).into_iter().map(|x| x.0).collect();
+        if r1 != r2 || !r1.contains(&f.sig) {
+            eprintln!("MACHINERY: schedule {:?} did not replay deterministically for {}", f.schedule, f.sig);
+            exit2 = true;
+            continue;
+        }
+        items.push((f.sig.clone(), format!("{} [schedule {:?}]", f.msg, f.schedule), serde_json::to_value(f).unwrap()));
+    }
+    let (exit, n_viol, _) = report("C18", items);
+    let _ = std::fs::remove_dir_all(hx::scratch_root());
+    let p = evidence::verif_root().join("evidence/C18.json");
+    if let Ok(s) = std::fs::read_to_string(&p) {
+        if let Ok(mut v) = serde_json::from_str::<serde_json::Value>(&s) {
+            v["coverage"]["concurrent_marks"] = serde_json::json!({
+                "scenario": "writer | rotate+flush | 2 x get_highest_seqno", "schedules_executed": o.executions,
+                "preemption_bound_completed": o.bound_completed, "capped": o.capped,
+                "rule": "under every schedule with at most 2 (3) preemptions get_highest_seqno() is never below a write acknowledged before the call",
+            });
+            v["violations"] = serde_json::json!(v["violations"].as_i64().unwrap_or(0) + n_viol);
+            let _ = std::fs::write(&p, serde_json::to_string_pretty(&v).unwrap());
+        }
+    }
+    eprintln!("[sched C18 {tier}] executions={} bounds={:?} violations={n_viol} capped={}", o.executions, o.bound_completed, o.capped);
+    if exit2 {
+        2
+    } else if rc == 1 || exit == 1 {
+        1
+    } else {
+        0
+    }
 }
 
 /// C20 = history exploration (directory listing oracle) + every recovered crash image must be free of leftovers.
